@@ -20,7 +20,7 @@ from .astutil import FUNC_TYPES, attr_chain, dotted
 from .effects import DELETED, EffectDomain, exc_info_of, is_generator
 from .generators import LazyGenerators
 
-CALLABLE_TAGS = ("func", "method", "boundmethod", "bound", "partial", "builtin", "listappend", "attrgetter", "itemgetter", "methodcaller", "classref", "ctorref", "userfn", "setmethod", "decoderfactory", "decodermethod", "strmethod", "dictmethod", "supermethod", "excclass", "trackedfn", "setattrmethod")
+CALLABLE_TAGS = ("func", "method", "boundmethod", "bound", "partial", "builtin", "listappend", "attrgetter", "itemgetter", "methodcaller", "classref", "ctorref", "userfn", "setmethod", "decoderfactory", "decodermethod", "strmethod", "dictmethod", "supermethod", "excclass", "trackedfn", "setattrmethod", "const-fn")
 
 
 def is_inst(v):
@@ -424,6 +424,10 @@ class ObjectDomain(LazyGenerators, EffectDomain):
             return [val(("tuple", ("sym", "message of " + " ".join(str(x) for x in value[1:]))), st)]   # what the exception was raised with: one symbolic message
         if isinstance(value, tuple) and value[:1] == ("super",) and len(value) == 3:
             return [val(("supermethod", value[1], attr, value[2]), st)]
+        if isinstance(value, tuple) and value[:1] == ("tuple",) and attr == "_asdict":
+            shapes = {tuple(fields) for fields in self._module_namedtuples(fr).values() if len(fields) == len(value) - 1}
+            if len(shapes) == 1:
+                return [val(("const-fn", ("kwdict", tuple(zip(shapes.pop(), value[1:])))), st)]   # namedtuple._asdict: the fields by name
         if isinstance(value, tuple) and value[:1] == ("tuple",):
             hits = {tuple(fields) for fields in self._module_namedtuples(fr).values() if attr in fields and len(fields) == len(value) - 1}
             if len(hits) == 1:
@@ -945,6 +949,8 @@ class ObjectDomain(LazyGenerators, EffectDomain):
             # not a callable of the repository whose body will run: it receives (and the log records) what the lists / dicts hold now
             pos = [unbox_deep(v, st) for v in pos]
             kw = [(k, unbox_deep(v, st)) for k, v in kw]
+        if tag == "const-fn" and not pos and not kw:
+            return [val(fn[1], st)]   # a bound method without arguments whose answer is known already
         if tag == "trackedfn":
             return self.call_tracked_values(fn[1], pos, kw, st)
         if tag == "setattrmethod" and len(pos) == 2 and not kw and isinstance(pos[0], tuple) and pos[0][:1] == ("const",) and isinstance(pos[0][1], str):
@@ -1726,6 +1732,11 @@ class ObjectDomain(LazyGenerators, EffectDomain):
                             else:
                                 out.extend(self.apply(interp, g.value, pos, kw, s2, fr))
                     return out
+            # <a namedtuple held in a variable>._asdict()
+            if isinstance(f_, ast.Attribute) and f_.attr == "_asdict" and isinstance(f_.value, ast.Name) and st.has(fr.local(f_.value.id)) and not call.args and not call.keywords:
+                got = self.attr_of_value(interp, unbox(st.get(fr.local(f_.value.id)), st), "_asdict", st, fr)
+                if got and all(r.kind == "val" and isinstance(r.value, tuple) and r.value[:1] == ("const-fn",) for r in got):
+                    return [val(r.value[1], r.state) for r in got]
             # calling the value of an arbitrary expression: f(x)(y), table[k](x), getattr(o, n)(x)
             if isinstance(f_, (ast.Call, ast.Subscript, ast.BoolOp, ast.IfExp)) or (isinstance(f_, ast.Attribute) and not attr_chain(f_) and not (dotted(f_) or "").startswith("super()")
                                                              and not any(isinstance(n_, ast.Call) for n_ in ast.walk(f_.value))):
